@@ -21,3 +21,4 @@ PROP = {'engine': 'stack',
  'technique': 'property-based testing (rapid): generated caller schedules, metamorphic expectation for the first caller'}
 PROP['rule'] += " Thorough tier: a fifth of the cases additionally run on hosts built with the race detector (judged there: data races on Go maps inside the emulator, which the Go runtime turns into a fatal error, and host deaths)."
 PROP['rule'] += " Round-6 addition: phase 'stalled' - the extra callers arrive while the runtime works; it then never answers: the first invocation must still be answered by its function timeout (700 ms) within timeout + reset allowance + 1.5 s."
+PROP['rule'] += " Later addition: phase 'donegap' - the first invocation has completed and its reservation is released, its caller has not been told yet (pause point invoke.released); a caller arriving there is an invocation of its own and must be served (this showed the defect repaired by cf49120)."
